@@ -56,11 +56,13 @@ Inputs ==
 OpSubmit(i) == [op |-> "Submit", src |-> i.src, pc |-> i.pc, hc |-> i.hc, be |-> i.be, mode |-> i.mode, via |-> i.via,
                 lim |-> i.lim, fwd |-> i.fwd, recv |-> Fields(i.hc),
                 auth |-> IF i.fwd THEN AuthFields(i.hc) ELSE <<>>]
-OpDeq(ch, t)     == [op |-> "Deq", ch |-> ch, ttl |-> t]
+\* b: how the store is asked - "one" (batch 1), "alone" (batch > 1, only this message is ready), "pair" (batch > 1 and a
+\* companion message of the harness is ready on the same route): three different read paths of the SQLite store
+OpDeq(ch, t, b)  == [op |-> "Deq", ch |-> ch, ttl |-> t, b |-> b]
 OpLease(k, ch)   == [op |-> "LeaseOp", kind |-> k, ch |-> ch]
 OpExpire         == [op |-> "Expire"]
-OpRequeue(o)     == [op |-> "Requeue", outcome |-> o]     \* outcome: first attempt after the requeue (deliver routes), "-" on pull routes
-OpPush(o)        == [op |-> "Push", outcome |-> o]
+OpRequeue(o, b)  == [op |-> "Requeue", outcome |-> o, b |-> b]   \* outcome: first attempt after the requeue (deliver routes), "-" on pull routes
+OpPush(o, b)     == [op |-> "Push", outcome |-> o, b |-> b]     \* the dispatcher always asks for a batch: "alone" | "pair"
 OpRestart        == [op |-> "Restart"]
 OpList(w)        == [op |-> "List", which |-> w]
 
@@ -68,16 +70,17 @@ OpList(w)        == [op |-> "List", which |-> w]
 \* redelivery by nack and by lease expiry, the DLQ and back, and restarts.
 PullTourAll ==
   << OpList("messages"),
-     OpDeq("http", "long"),  OpLease("nack", "http"),
-     OpDeq("grpc", "long"),  OpRestart, OpLease("nack", "grpc"),
-     OpDeq("inproc", "long"), OpLease("nack", "http"),
-     OpDeq("http", "short"), OpExpire,
-     OpDeq("grpc", "long"),  OpLease("dead", "grpc"), OpList("dlq"), OpRestart, OpRequeue("-"),
-     OpDeq("http", "long"),  OpLease("ack", "http"), OpList("messages") >>
+     OpDeq("http", "long", "one"),  OpLease("nack", "http"),
+     OpDeq("grpc", "long", "pair"),  OpRestart, OpLease("nack", "grpc"),
+     OpDeq("inproc", "long", "alone"), OpLease("nack", "http"),
+     OpDeq("http", "short", "pair"), OpExpire,
+     OpDeq("grpc", "long", "one"),  OpLease("dead", "grpc"), OpList("dlq"), OpRestart, OpRequeue("-", "-"),
+     OpDeq("inproc", "long", "pair"), OpLease("nack", "grpc"),
+     OpDeq("http", "long", "alone"),  OpLease("ack", "http"), OpList("messages") >>
 PushTourAll ==
   << OpList("messages"),
-     OpPush("retry"), OpRestart, OpPush("retry"), OpPush("fatal"), OpList("dlq"), OpRestart,
-     OpRequeue("retry"), OpPush("ok"), OpList("messages") >>
+     OpPush("retry", "alone"), OpRestart, OpPush("retry", "pair"), OpPush("fatal", "alone"), OpList("dlq"), OpRestart,
+     OpRequeue("retry", "pair"), OpPush("ok", "alone"), OpList("messages") >>
 Tour(i) ==
   SelectSeq(IF i.mode = "pull" THEN PullTourAll ELSE PushTourAll, LAMBDA o : o.op # "Restart" \/ i.be = "sqlite")
 
@@ -104,11 +107,11 @@ Submit ==
   /\ UNCHANGED <<ttl, nd, na, rs>>
 
 Deq ==
-  \E ch \in {"http", "grpc", "inproc"}, t \in {"long", "short"} :
-    /\ in.mode = "pull" /\ st = "queued" /\ nd < MaxDeq /\ Go(OpDeq(ch, t))
+  \E ch \in {"http", "grpc", "inproc"}, t \in {"long", "short"}, b \in {"one", "alone", "pair"} :
+    /\ in.mode = "pull" /\ st = "queued" /\ nd < MaxDeq /\ Go(OpDeq(ch, t, b))
     /\ st' = "leased" /\ ttl' = t /\ nd' = nd + 1
     /\ obs' = See(ch)
-    /\ Step(OpDeq(ch, t))
+    /\ Step(OpDeq(ch, t, b))
     /\ UNCHANGED <<store, na, rs>>
 
 LeaseOp ==
@@ -129,25 +132,25 @@ Expire ==
 After(o) == CASE o = "ok" -> "delivered" [] o = "retry" -> "queued" [] o = "fatal" -> "dead"
 
 Push ==
-  \E o \in {"ok", "retry", "fatal"} :
-    /\ in.mode = "push" /\ st = "queued" /\ na < MaxAtt /\ Go(OpPush(o))
+  \E o \in {"ok", "retry", "fatal"}, b \in {"alone", "pair"} :
+    /\ in.mode = "push" /\ st = "queued" /\ na < MaxAtt /\ Go(OpPush(o, b))
     /\ o = "ok" => na + 1 >= MinEnd
     /\ st' = After(o) /\ na' = na + 1
     /\ obs' = See("push")
-    /\ Step(OpPush(o))
+    /\ Step(OpPush(o, b))
     /\ UNCHANGED <<ttl, store, nd, rs>>
 
 \* operator requeue from the DLQ; on a deliver route the dispatcher sends it at once
 Requeue ==
-  \/ /\ in.mode = "pull" /\ st = "dead" /\ Go(OpRequeue("-"))
+  \/ /\ in.mode = "pull" /\ st = "dead" /\ Go(OpRequeue("-", "-"))
      /\ st' = "queued" /\ obs' = None
-     /\ Step(OpRequeue("-"))
+     /\ Step(OpRequeue("-", "-"))
      /\ UNCHANGED <<ttl, store, nd, na, rs>>
-  \/ \E o \in {"ok", "retry", "fatal"} :
-       /\ in.mode = "push" /\ st = "dead" /\ na < MaxAtt /\ Go(OpRequeue(o))
+  \/ \E o \in {"ok", "retry", "fatal"}, b \in {"alone", "pair"} :
+       /\ in.mode = "push" /\ st = "dead" /\ na < MaxAtt /\ Go(OpRequeue(o, b))
        /\ st' = After(o) /\ na' = na + 1
        /\ obs' = See("push")
-       /\ Step(OpRequeue(o))
+       /\ Step(OpRequeue(o, b))
        /\ UNCHANGED <<ttl, store, nd, rs>>
 
 \* stop the instance, open the same database again (SQLite); a valid long lease survives
